@@ -55,7 +55,7 @@ ClausesM(e, ml) ==
        (IF AsgFunctional(e.assignment) /\ AsgSatisfies(e.cnf, e.assignment) THEN {} ELSE {"Satisfies"})
        \cup (IF e.nv <= BruteSat /\ ~Satisfiable(e.cnf) THEN {"Agrees"} ELSE {})
   ELSE IF e.verdict = "unsat" THEN
-       (IF ValidRefutation(e.cnf, e.proofs) THEN {} ELSE {"Refutation"})
+       (IF ValidRefutation(e.cnf, e.proofs) \/ RefutationUndecided(e.cnf, e.proofs) THEN {} ELSE {"Refutation"})
        \cup (IF e.nv <= BruteUnsat /\ Satisfiable(e.cnf) THEN {"Agrees"} ELSE {})
   ELSE IF e.verdict = "timeout" THEN (IF ml THEN {"Terminates"} ELSE {})
   ELSE {"Returns"}
